@@ -329,6 +329,8 @@ class FDE:
             elif isinstance(s, (ast.ImportFrom, ast.Import)):
                 for a in s.names:
                     nm = a.asname or a.name.split('.')[0]
+                    if isinstance(s, ast.ImportFrom) and s.module == 'itertools' and a.asname is None:
+                        continue      # takewhile / dropwhile / ... have stand-ins (see _call)
                     if nm in self.repo.classes:
                         env[nm] = ('class', nm)
                     else:
@@ -490,6 +492,9 @@ class FDE:
             return ('objdictmethod', base, attr)
         if isinstance(base, dict) and attr in ('get', 'items', 'keys', 'values', 'pop', 'update', 'setdefault'):
             return ('dictmethod', base, attr)
+        import re as _re
+        if isinstance(base, (_re.Pattern, _re.Match)) and not attr.startswith('_'):
+            return ('pymethod', base, attr)
         if isinstance(base, str) and attr in _STR_METHODS:
             return ('strmethod', base, attr)
         if isinstance(base, (list, set)) and not attr.startswith('_') and hasattr(base, attr):
@@ -873,6 +878,12 @@ class FDE:
                     return list(d.values())
             if isinstance(target, tuple) and target and target[0] == 'noop':
                 return None
+            if isinstance(target, tuple) and target and target[0] == 'pymethod':
+                # stdlib regular-expression objects: evaluated by the stdlib itself on concrete strings
+                if not all(a is None or isinstance(a, (str, int)) for a in args):
+                    raise Unsupported('regex method on abstract arguments')
+                r_ = getattr(target[1], target[2])(*args, **kwargs)
+                return list(r_) if target[2] in ('finditer',) else r_
             if isinstance(target, tuple) and target and target[0] == 'strmethod':
                 if all(isinstance(a, (str, int, tuple)) or (isinstance(a, list) and all(isinstance(x, str) for x in a)) for a in args):
                     return getattr(target[1], target[2])(*args, **kwargs)
